@@ -230,7 +230,26 @@ def genState (acc : Bool) (s : SymRepr) : GState × List Call :=
   let r4 := genReactions acc s.reactions r3.1
   (r4.1, r1.2 ++ r2.2 ++ r3.2 ++ r4.2)
 
+/-- the functions `_check_function_names` is called with: derived quantities, then reactions -/
+def compFns (s : SymRepr) : List SymFn := s.derived.map (·.2) ++ s.reactions.map (·.2.fn)
+
+/-- first loop of `_check_function_names`: the function of a name is taken from its first use with distinct arguments -/
+def writtenRef (fns : List SymFn) (name : String) : Option SymFn :=
+  fns.find? fun f => f.fnName == name && !hasDup f.args
+
+/-- second loop: every use of a name is that name's function applied to the use's arguments: as many arguments, and the
+    expression of the use equals the reference with its arguments renamed.  Expressions are opaque here (`ExprId`): in the
+    generated `SymbolicRepr`s they stand for closed terms, on the import path a name has one use — equal ids it is. -/
+def namesConsistent (s : SymRepr) : Bool :=
+  (compFns s).all fun f =>
+    match writtenRef (compFns s) f.fnName with
+    | some g => g.args.length == f.args.length && g.expr == f.expr
+    | none => true
+
 def genModuleWith (acc : Bool) (s : SymRepr) : Except String Module :=
+  -- `_check_function_names`: two different functions with one name (builder F's repair a78b54e)
+  if !namesConsistent s then .error "ValueError"
+  else
   let r := genState acc s
   -- `sympy_to_python_fn` for every entry of `functions`
   if r.1.fns.any (fun kv => hasDup kv.2.2) then .error "ValueError"
